@@ -51,13 +51,13 @@ theorem isNormal_of_text {v : Value} (h : v.isText = true) : v.isNormal = true :
 
 /-- The far geometry: the node does not come from the child list of `p`. -/
 theorem appendTail_far {f : Forest} {p c : Nat} {t : HTree} {vp : Value} {Lp : List HTree} {X Y : Forest}
-    {φ : HTree → HTree} (inv : f.Inv) (norm : f.Normal)
-    (F : Far f (Keep.resident c) c t p vp Lp X Y φ) (sp : SiteAt f p vp Lp) (hgc : f.get? c = some t)
+    {φ : HTree → HTree} {keep : Keep} (hkeep : ∀ a b, a ≠ c → keep a b = true) (inv : f.Inv) (norm : f.Normal)
+    (F : Far f keep c t p vp Lp X Y φ) (sp : SiteAt f p vp Lp) (hgc : f.get? c = some t)
     (hX : X = f ∨ textData t = none)
     (hsame : ¬ Forest.lastOf Lp = some c)
     (hocc : Dest.occupiedBy f c (.lastChildOf p) = false)
     (hok : (appendTail X p c).2 = .ok) :
-    (appendTail X p c).1 = specMove (Keep.resident c) (.lastChildOf p) c f := by
+    (appendTail X p c).1 = specMove keep (.lastChildOf p) c f := by
   have hsite : Dest.site f (.lastChildOf p) = some p := by
     simp [Dest.site, Forest.isLive_of_get sp.kids]
   have hspec := F.spec (.lastChildOf p) hocc hsite (fun ψ _ hψ => natFor_insertLast hψ)
@@ -73,7 +73,7 @@ theorem appendTail_far {f : Forest} {p c : Nat} {t : HTree} {vp : Value} {Lp : L
   -- Flow 1: no merge at the destination
   have flow1 : X.addConsolidate c (X.lastChild p) none = (X, false) →
       (f.consolidation = true → ∀ k, Lp.getLast? = some k → ¬ (k.value.isText = true ∧ t.value.isText = true)) →
-      (appendTail X p c).1 = (Y.editAt (some p) (insertLast t)).mergeAt (Keep.resident c) (some p) := by
+      (appendTail X p c).1 = (Y.editAt (some p) (insertLast t)).mergeAt keep (some p) := by
     intro hr2 hseam
     unfold appendTail at hok ⊢
     rw [hr2] at hok ⊢
@@ -187,10 +187,10 @@ theorem appendTail_far {f : Forest} {p c : Nat} {t : HTree} {vp : Value} {Lp : L
         have hstr := hstrictY hc
         rw [List.map_append, List.map_cons, List.map_nil] at hstr
         have hvka : (φ ka).value = .text ta := by rw [F.kid.value]; exact textData_some hta
-        have := mergeRuns_seam (Keep.resident c) (l := L'.map φ) (r := []) hvka (textData_some htd) hstr rfl
+        have := mergeRuns_seam keep (l := L'.map φ) (r := []) hvka (textData_some htd) hstr rfl
         have e2 : L'.map φ ++ φ ka :: [] ++ [t] = L'.map φ ++ φ ka :: t :: [] := by simp
         rw [e2, this]
-        simp [join, Keep.resident, F.kid.handle, hkac]
+        simp [join, F.kid.handle, hkeep _ _ hkac]
 
 end XotModel
 
@@ -205,12 +205,12 @@ theorem lastOf_append_cons {l : List HTree} {t k : HTree} {r : List HTree} :
 
 /-- The same-site geometry: the node is a child of `p` already (but not the last one). -/
 theorem appendTail_same {f : Forest} {p : Nat} {t : HTree} {vp : Value} {l r : List HTree}
-    (inv : f.Inv) (norm : f.Normal) (sp : SiteAt f p vp (l ++ t :: r)) (hnorm : t.value.isNormal = true)
+    {keep : Keep} (hkeep : ∀ a b, a ≠ t.handle → keep a b = true) (inv : f.Inv) (norm : f.Normal) (sp : SiteAt f p vp (l ++ t :: r)) (hnorm : t.value.isNormal = true)
     (hsame : ¬ Forest.lastOf (l ++ t :: r) = some t.handle)
     (hocc : Dest.occupiedBy f t.handle (.lastChildOf p) = false)
     (hok : (appendTail (f.removeConsolidate (prevOf l t) (nextOf r t)).1 p t.handle).2 = .ok) :
     (appendTail (f.removeConsolidate (prevOf l t) (nextOf r t)).1 p t.handle).1 =
-      specMove (Keep.resident t.handle) (.lastChildOf p) t.handle f := by
+      specMove keep (.lastChildOf p) t.handle f := by
   have nd := sp.nd
   have hgc : f.get? t.handle = some t := sp.getKid
   have hsite : Dest.site f (.lastChildOf p) = some p := by
@@ -228,8 +228,8 @@ theorem appendTail_same {f : Forest} {p : Nat} {t : HTree} {vp : Value} {l r : L
     rw [List.getLast?_concat]
     simp [hnorm]
   -- the specification, as one edit of `p`'s child list
-  have hspec : specMove (Keep.resident t.handle) (.lastChildOf p) t.handle f =
-      f.editAt (some p) (fun _ => if f.consolidation then mergeRuns (Keep.resident t.handle) ((l ++ r) ++ [t])
+  have hspec : specMove keep (.lastChildOf p) t.handle f =
+      f.editAt (some p) (fun _ => if f.consolidation then mergeRuns keep ((l ++ r) ++ [t])
         else (l ++ r) ++ [t]) := by
     rw [specMove_unfold hocc hgc hsite, hpar]
     simp only [Dest.insert]
@@ -237,7 +237,7 @@ theorem appendTail_same {f : Forest} {p : Nat} {t : HTree} {vp : Value} {l r : L
     · have c1 : ((f.editAt (some p) (dropTop t.handle)).editAt (some p) (insertLast t)).consolidation = true := by
         rw [Forest.editAt_consolidation, Forest.editAt_consolidation]; exact hc
       have c2 : (((f.editAt (some p) (dropTop t.handle)).editAt (some p) (insertLast t)).editAt (some p)
-          (mergeRuns (Keep.resident t.handle))).consolidation = true := by
+          (mergeRuns keep)).consolidation = true := by
         rw [Forest.editAt_consolidation]; exact c1
       rw [mergeAt_on c1, mergeAt_on c2, Forest.editAt_editAt, Forest.editAt_editAt, Forest.editAt_editAt]
       apply sp.congr
@@ -258,10 +258,10 @@ theorem appendTail_same {f : Forest} {p : Nat} {t : HTree} {vp : Value} {l r : L
       X = f.editAt (some p) (fun _ => l1 ++ t :: r1) →
       res.1 = X →
       X.addConsolidate t.handle (X.lastChild p) none = (X, false) →
-      ((if f.consolidation then mergeRuns (Keep.resident t.handle) ((l ++ r) ++ [t]) else (l ++ r) ++ [t])
+      ((if f.consolidation then mergeRuns keep ((l ++ r) ++ [t]) else (l ++ r) ++ [t])
         = (l1 ++ r1) ++ [t]) →
       (appendTail res.1 p t.handle).1 =
-        f.editAt (some p) (fun _ => if f.consolidation then mergeRuns (Keep.resident t.handle) ((l ++ r) ++ [t])
+        f.editAt (some p) (fun _ => if f.consolidation then mergeRuns keep ((l ++ r) ++ [t])
           else (l ++ r) ++ [t]) := by
     intro X l1 r1 sX hX hres hr2 hlist
     rw [hres] at hok ⊢
@@ -317,7 +317,7 @@ theorem appendTail_same {f : Forest} {p : Nat} {t : HTree} {vp : Value} {l r : L
         exact htn h2
       have e1 : (l' ++ [a] ++ b :: r') ++ [t] = l' ++ a :: b :: (r' ++ [t]) := by simp
       rw [e1, mergeRuns_seam _ hx hy hl hbrt]
-      simp [join, Keep.resident, hak]
+      simp [join, hkeep _ _ hak]
   | same hseam =>
     have sX : SiteAt f p vp (l ++ t :: r) := sp
     have hXid : f = f.editAt (some p) (fun _ => l ++ t :: r) := by
@@ -340,7 +340,7 @@ theorem appendTail_same {f : Forest} {p : Nat} {t : HTree} {vp : Value} {l r : L
         (f.consolidation = true → ¬ (ka.value.isText = true ∧ t.value.isText = true)) →
         (appendTail (f, false).1 p t.handle).1 =
           f.editAt (some p) (fun _ => if f.consolidation then
-            mergeRuns (Keep.resident t.handle) ((l ++ (r'' ++ [ka])) ++ [t]) else (l ++ (r'' ++ [ka])) ++ [t]) := by
+            mergeRuns keep ((l ++ (r'' ++ [ka])) ++ [t]) else (l ++ (r'' ++ [ka])) ++ [t]) := by
       intro hr2 hsm
       refine flow1 f l (r'' ++ [ka]) sX hXid rfl hr2 ?_
       rcases Bool.eq_false_or_eq_true f.consolidation with hc | hc
@@ -432,6 +432,106 @@ theorem appendTail_same {f : Forest} {p : Nat} {t : HTree} {vp : Value} {l r : L
         rw [dropTop_mid rfl tlZ trZ]
         have e2 : (l ++ (r'' ++ [ka])) ++ [t] = (l ++ r'') ++ ka :: t :: [] := by simp
         rw [e2, mergeRuns_seam _ (textData_some hta) (textData_some htd) (hstrictL hc) rfl]
-        simp [join, Keep.resident, hkat]
+        simp [join, hkeep _ _ hkat]
+
+end XotModel
+
+namespace XotModel
+open HTree Spec
+
+theorem OldOutcome.same_or_not_text {f : Forest} {po : Nat} {l : List HTree} {t : HTree} {r : List HTree}
+    {res : Forest × Bool} (h : OldOutcome f po l t r res) : res.1 = f ∨ textData t = none := by
+  cases h with
+  | same _ => exact Or.inl rfl
+  | merged _ _ _ _ _ _ _ _ _ _ _ _ _ ht => exact Or.inr ht
+
+theorem occupied_lastChild {f : Forest} {p c : Nat} {vp : Value} {Lp : List HTree} {t : HTree}
+    (sp : SiteAt f p vp Lp) (hgc : f.get? c = some t) (hnorm : t.value.isNormal = true) :
+    Dest.occupiedBy f c (.lastChildOf p) = true ↔ Forest.lastOf Lp = some c := by
+  simp only [Dest.occupiedBy, Forest.kidsOf_of_get sp.kids, beq_iff_eq]
+  constructor
+  · intro h
+    cases hl : Lp.getLast? with
+    | none => rw [hl] at h; cases h
+    | some k =>
+      rw [hl] at h
+      simp only [Option.map_some, Option.some.injEq] at h
+      obtain ⟨L', e⟩ := List.getLast?_eq_some_iff.1 hl
+      subst e
+      have sk : SiteAt f p vp (L' ++ k :: []) := sp
+      have := sk.getKid
+      rw [h, hgc] at this
+      have := Option.some.inj this
+      subst this
+      unfold Forest.lastOf
+      rw [hl]
+      simp [hnorm, h]
+  · intro h
+    obtain ⟨L', ka, e, eka, _⟩ := lastOf_eq_some h
+    subst e
+    rw [List.getLast?_concat]
+    simp [eka]
+
+/-- **append**: the model's `append`, when it succeeds, is the specification's move to the last
+    position of `p` — handle for handle, with xot's survivor rule. -/
+theorem append_spec {f : Forest} {p c : Nat} {keep : Keep} (hkeep : ∀ a b, a ≠ c → keep a b = true) (inv : f.Inv) (norm : f.Normal)
+    (hok : (f.append p c).2 = .ok) :
+    (f.append p c).1 = specMove keep (.lastChildOf p) c f := by
+  have nd := inv.nodup
+  have hsc : f.structureCheck (some p) c = true := by
+    cases h : f.structureCheck (some p) c with
+    | true => rfl
+    | false => rw [Forest.append_unfold] at hok; simp [h] at hok
+  obtain ⟨vp, Lp, t, hgp, hgc, hpt, hnorm, hndoc, hvp⟩ := Forest.structureCheck_unpack nd hsc
+  have sp : SiteAt f p vp Lp := ⟨nd, hgp⟩
+  have htc : t.handle = c := (findList?_some f.roots t hgc).1
+  have hlast : f.lastChild p = Forest.lastOf Lp := Forest.lastChild_of_get hgp
+  have hoccIff := occupied_lastChild sp hgc hnorm
+  by_cases hsame : Forest.lastOf Lp = some c
+  · -- already the last child
+    have hocc := hoccIff.2 hsame
+    rw [Forest.append_unfold]
+    unfold specMove
+    simp [hsc, hlast, hsame, hocc]
+  · have hocc : Dest.occupiedBy f c (.lastChildOf p) = false := by
+      cases h : Dest.occupiedBy f c (.lastChildOf p) with
+      | false => rfl
+      | true => exact absurd (hoccIff.1 h) hsame
+    have hsame' : ¬ f.lastChild p = some c := by rw [hlast]; exact hsame
+    rw [append_eq_tail hsc hsame'] at hok ⊢
+    rcases Forest.root_or_ctx hgc with hroot | ⟨cx, hctx⟩
+    · have hno := Forest.ctx_none_of_root nd hroot
+      have hr1 : f.removeConsolidate (f.prevSibling c) (f.nextSibling c) = (f, false) := by
+        rw [Forest.prevSibling_of_no_ctx hno]; exact Forest.removeConsolidate_none_left _ _
+      rw [hr1] at hok ⊢
+      exact appendTail_far hkeep inv norm (far_root hgc hno sp hpt) sp hgc (Or.inl rfl) hsame hocc hok
+    · obtain ⟨e0, vo, so⟩ := SiteAt.of_ctx nd hctx
+      have hself : cx.self = t := by
+        have := Forest.get?_of_ctx nd hctx
+        rw [hgc] at this
+        exact (Option.some.inj this).symm
+      obtain ⟨po, l, k, r⟩ := cx
+      simp only at e0 so hself
+      subst hself
+      subst htc
+      rw [Forest.prevSibling_of_ctx hctx, Forest.nextSibling_of_ctx hctx] at hok ⊢
+      simp only at hok ⊢
+      by_cases hpo : po = p
+      · subst hpo
+        have : vo = vp ∧ l ++ k :: r = Lp := by
+          have := so.kids
+          rw [hgp] at this
+          have := Option.some.inj this
+          injection this with _ e2 e3
+          exact ⟨e2.symm, e3.symm⟩
+        obtain ⟨ev, eL⟩ := this
+        subst ev eL
+        exact appendTail_same hkeep inv norm so hnorm hsame hocc hok
+      · have hvq : vp.isText = false := by
+          cases hvp with
+          | inl h => cases vp <;> simp_all [Value.isElement, Value.isText]
+          | inr h => cases vp <;> simp_all [Value.isDocument, Value.isText]
+        obtain ⟨φ, F⟩ := far_kid (keep := keep) inv norm hkeep so sp hpo hpt hvq
+        exact appendTail_far hkeep inv norm F sp hgc (old_stage inv norm so).same_or_not_text hsame hocc hok
 
 end XotModel
